@@ -13,15 +13,21 @@ def step (d : D) (toks : List String) : D × String :=
   | ["endprog"] => ({}, "ok")
   | "ring" :: _ :: _ :: _ :: _ :: _ :: [b] => ({ d with checkAvail := b = "0" }, "ok")
   | _ =>
-    if d.rejected then (d, "skip") else
-    let evs : List Ev := match toks with
-      | ["produced", p, n] => [.produced (p.toNat?.getD 0) (n.toNat?.getD 0)]
-      | ["got", c, p, s] => [.got (c.toNat?.getD 0) (p.toNat?.getD 0) (s.toNat?.getD 0)]
-      | ["maxavail", n, c] => if d.checkAvail then [.maxavail (n.toNat?.getD 0) (c.toNat?.getD 0)] else []
-      | ["result", "done"] => [.final]
-      | _ => []
-    match run d.st evs with
-    | .error m => ({ d with rejected := true }, "reject " ++ m)
-    | .ok s => ({ d with st := s }, "ok")
+    -- `d` is taken apart so that the acceptor state (hash containers) is uniquely referenced and updated in place
+    match d with
+    | ⟨st, rejected, checkAvail⟩ =>
+      if rejected then (⟨st, rejected, checkAvail⟩, "skip") else
+      let evs : List Ev := match toks with
+        | ["produced", p, n] => [.produced (p.toNat?.getD 0) (n.toNat?.getD 0)]
+        | ["got", c, p, s] => [.got (c.toNat?.getD 0) (p.toNat?.getD 0) (s.toNat?.getD 0)]
+        | ["maxavail", n, c] => if checkAvail then [.maxavail (n.toNat?.getD 0) (c.toNat?.getD 0)] else []
+        | ["result", "done"] => [.final]
+        | _ => []
+      match evs with
+      | [] => (⟨st, rejected, checkAvail⟩, "ok")
+      | _ =>
+        match run st evs with
+        | .error m => (⟨{}, true, checkAvail⟩, "reject " ++ m)
+        | .ok s => (⟨s, rejected, checkAvail⟩, "ok")
 
 end Driver.RingLog
